@@ -949,7 +949,9 @@ fn run_case(job: &Job, wk: &mut W, case: u64, ctx: &mut Ctx) {
 
 pub fn run(prop: &'static str, tier: &str) -> i32 {
   let mut rep = Report::new(prop, tier, "exploration");
-  stage_single(prop, &mut rep);
+  let a = stage_single(prop, &mut rep);
+  let b = stage_banked_fetch(prop, &mut rep);
+  rep.evaluations = a + b;
   rep.finish()
 }
 
@@ -1011,4 +1013,146 @@ pub fn stage_single(prop: &'static str, rep: &mut Report) -> u64 {
     }
   }
   counters[0]
+}
+
+
+/// C05/C06 on a banked cartridge: every encoding placed so that its operand bytes lie across
+/// the 0x3FFF/0x4000 boundary (and, as controls, just before and after it) of a 4-bank MBC1
+/// image with bank 2 or 3 mapped; the bytes beyond 0x3FFF must come from the mapped bank.
+pub fn stage_banked_fetch(prop: &'static str, rep: &mut Report) -> u64 {
+  let img = crate::world::make_image(0x03, 0x01, 0x02, 4, |b, o| ((o * 7) ^ (o >> 8) ^ (b * 0x55)) as u8);
+  let image = crate::world::write_rom_file(&img);
+  let mut encs: Vec<([u8; 3], u8)> = Vec::new();
+  for op in 0..=255u8 {
+    if op == 0xCB {
+      for cb in 0..=255u8 {
+        encs.push(([0xCB, cb, 0], 2));
+      }
+    } else {
+      encs.push(enc(op));
+    }
+  }
+  let places: [(u16, &str); 5] = [(0x3FFC, "rom0-end"), (0x3FFD, "rom0-end"), (0x3FFE, "rom0|romN"), (0x3FFF, "rom0|romN"), (0x4000, "romN")];
+  let banks = [2u8, 3];
+  let total = encs.len() as u64 * banks.len() as u64;
+  let opts = PoolOpts { chunk: 32, bitmap_bits: 1 << 16, samples_per_child: 1, ..PoolOpts::default() };
+  let img_path = image.clone();
+  let job = Job { prop, jit: false, sweeps: Vec::new(), starts: Vec::new(), total, thorough: rep.thorough() };
+  let r = run_pool(
+    total,
+    &opts,
+    |_| {
+      let mk = |bank: u8| {
+        let mut core = crate::world::load_like_main(&img_path).expect("banked image loads");
+        for (i, b) in core.memory.work_ram.iter_mut().enumerate() {
+          *b = (i as u8).wrapping_mul(3) ^ 0x5A;
+        }
+        let mp = &mut core.memory as *mut crate::mem::MemoryAreas;
+        crate::mem::memory_write_byte(mp, 0x2100, bank);
+        W { w: StepWorld::from_core(core), jw: None, planted: Vec::new(), last_sweep: usize::MAX }
+      };
+      (mk(2), mk(3))
+    },
+    |ws, case, ctx| {
+      let bi = (case % 2) as usize;
+      let (code3, len) = encs[(case / 2) as usize];
+      let wk = if bi == 0 { &mut ws.0 } else { &mut ws.1 };
+      let sw = Sweep { kind: Kind::Place, code: code3, len, outer: 1 };
+      ctx.sample(|| J::obj().set("code", J::s(hex(&code3[..len as usize]))).set("mapped_bank", J::u(banks[bi] as u64)).set("placements", J::s("3FFC 3FFD 3FFE 3FFF 4000")));
+      for (pc, name) in places.iter() {
+        if (*pc as usize) + (len as usize) <= 0x4000 && *pc < 0x3FFD {
+          continue; // does not reach the boundary
+        }
+        wk.plant(*pc, &code3[..len as usize]);
+        for f in [0x00u8, 0xF0, 0x80, 0x10].iter() {
+          let mut c = base_cpu((*f >> 7) as usize, *pc);
+          c.f = *f;
+          c.sp = 0xDFF0;
+          eval(&job, wk, ctx, &sw, &c, None, &format!("{}/bank{}", name, banks[bi]));
+        }
+        wk.unplant();
+      }
+    },
+    |case, how| (format!("{} banked-fetch case={} crash={}", prop, case, how), J::obj().set("case", J::obj().set("index", J::u(case)))),
+  );
+  let c = rep.add_stage("banked-fetch", "all 512 encodings x placements 3FFD..4000 x mapped bank 2|3 of a 4-bank MBC1 image whose banks differ everywhere x 4 F", r);
+  let _ = std::fs::remove_file(&image);
+  c[0]
+}
+
+/// `--replay` for the single-instruction cases of C05/C06 (interpreter vs R1) and C01/C02
+/// (translated block vs interpreter): re-executes exactly the recorded case, twice, in fresh
+/// worlds, prints both observations and exits 1 if the difference is still there.
+pub fn replay_case(id: &str, file: &J) -> Option<i32> {
+  if !matches!(id, "C01" | "C02" | "C05" | "C06") {
+    return None;
+  }
+  let case = file.get("detail")?.get("case")?;
+  let regs = case.get("regs")?;
+  let hexu16 = |k: &str| u16::from_str_radix(&regs.str_of(k), 16).ok();
+  let (af, bc, de, hl, sp, pc) = (hexu16("af")?, hexu16("bc")?, hexu16("de")?, hexu16("hl")?, hexu16("sp")?, hexu16("pc")?);
+  let code_s = if case.get("code").is_some() { case.str_of("code") } else { case.str_of("block").split(' ').next().unwrap_or("").to_string() };
+  let mut code: Vec<u8> = Vec::new();
+  let cs: Vec<char> = code_s.chars().collect();
+  let mut i = 0;
+  while i + 1 < cs.len() {
+    code.push(u8::from_str_radix(&format!("{}{}", cs[i], cs[i + 1]), 16).ok()?);
+    i += 2;
+  }
+  if code.is_empty() {
+    return None;
+  }
+  let mem: Option<(u16, u8)> = case.get("mem").and_then(|m| m.as_str()).and_then(|m| {
+    let mut it = m.split('=');
+    Some((u16::from_str_radix(it.next()?, 16).ok()?, u8::from_str_radix(it.next()?, 16).ok()?))
+  });
+  let c = Cpu { a: (af >> 8) as u8, f: af as u8, b: (bc >> 8) as u8, c: bc as u8, d: (de >> 8) as u8, e: de as u8, h: (hl >> 8) as u8, l: hl as u8, sp, pc };
+  let jit = id == "C01" || id == "C02";
+  let mut outs: Vec<String> = Vec::new();
+  let mut differs = false;
+  for _ in 0..2 {
+    if jit {
+      let mut jw = JitWorld::new();
+      jw.plant_bytes(pc, &code);
+      if !is_terminator(&code) {
+        jw.plant_bytes(pc.wrapping_add(code.len() as u16), &TERM);
+      }
+      if let Some((a, v)) = mem {
+        jw.plant_bytes(a, &[v]);
+      }
+      let oi = jw.run_interp_block(&c);
+      jw.restore(&oi);
+      let oj = jw.run_jit_block(&c, 2);
+      let d = block_diff(&oi, &oj);
+      let d: Vec<&str> = d.into_iter().filter(|f| (id == "C02") == (*f == "cycles")).collect();
+      differs |= !d.is_empty();
+      outs.push(J::obj().set("interpreter", bobs_json(&oi)).set("translated", bobs_json(&oj)).set("differing_fields", J::Arr(d.iter().map(|x| J::s(*x)).collect())).to_string());
+    } else {
+      let mut w = StepWorld::new();
+      for (k, b) in code.iter().enumerate() {
+        w.poke(pc.wrapping_add(k as u16), *b);
+      }
+      if let Some((a, v)) = mem {
+        w.poke(a, v);
+      }
+      let exp = w.expect(&c);
+      let obs = w.run_interp(&c);
+      let d: Vec<&str> = diff(&exp, &obs).into_iter().filter(|f| judged(id, f, code[0])).collect();
+      differs |= !d.is_empty();
+      outs.push(J::obj().set("expected", exp_json(&exp)).set("observed", obs_json(&obs)).set("differing_fields", J::Arr(d.iter().map(|x| J::s(*x)).collect())).to_string());
+    }
+  }
+  println!("run 1: {}", outs[0]);
+  println!("run 2: {}", outs[1]);
+  if outs[0] != outs[1] {
+    eprintln!("MACHINERY-ERROR property={} the two replays of one case differ", id);
+    return Some(2);
+  }
+  if differs {
+    println!("REPRODUCED property={} key={}", id, file.str_of("key"));
+    Some(1)
+  } else {
+    println!("NOT-REPRODUCED property={} key={}", id, file.str_of("key"));
+    Some(0)
+  }
 }
